@@ -392,6 +392,9 @@ func (e *Engine) directSummary(fn *ssa.Function) *fnSummary {
 			case *ssa.Store:
 				names, _ := staticMems(x.Addr)
 				mask := rootMask(rootOf(x.Addr, 0))
+				if g := globalRoot(x.Addr, 0); g != nil {
+					s.mods.addRoot(globalKey(g), rootAbs)
+				}
 				if mask != 0 {
 					if names == nil {
 						s.mods.top = true
@@ -776,4 +779,22 @@ func externalModsRooted(sig *types.Signature, ms *ModSet) {
 	for i := 0; i < sig.Params().Len(); i++ {
 		addT(sig.Params().At(i).Type())
 	}
+}
+
+// globalRoot: the package-level variable an address is derived from, if any.
+func globalRoot(v ssa.Value, depth int) *ssa.Global {
+	if depth > 20 {
+		return nil
+	}
+	switch x := v.(type) {
+	case *ssa.Global:
+		return x
+	case *ssa.FieldAddr:
+		return globalRoot(x.X, depth+1)
+	case *ssa.IndexAddr:
+		return globalRoot(x.X, depth+1)
+	case *ssa.ChangeType:
+		return globalRoot(x.X, depth+1)
+	}
+	return nil
 }
